@@ -49,7 +49,7 @@ class CallbackMonitor(Monitor):
 
     # accepted incoming datagram: which of my datagrams does it acknowledge
     def post_recv(self, conn, hdr, datagram, pre, result):
-        if not result:
+        if result is not True:
             return
         w = self.w
         cn = w.conn_name(conn)
@@ -93,6 +93,8 @@ class C07(UdpCheck):
             "fired and at least one callback ran; distinct = distinct event-order digest")
 
     def gen(self, rng, tier, i):
+        if i % 20 == 11:
+            return self.gen_ackedge(rng, tier, i)
         case = gen_traffic(rng, i, tier, retries=(0, 0, 1, -1, -1), cb_p=1.0)
         cfg, plan = case["cfg"], case["plan"]
         # (the message timeout is varied by gen_traffic, always above the worst RTT of the run)
@@ -112,6 +114,29 @@ class C07(UdpCheck):
             plan.append({"op": "forge", "global": True, "t": round(t0 + rng.random() * (t1 - t0), 4), "frm": frm, "to": to,
                          "type": rng.choice([1, 2, 4, 6]), "inner": [rng.choice([4, 6])] * rng.choice([0, 1, 2]),
                          "ack": "all"})
+        return case
+
+    def gen_ackedge(self, rng, tier, i):
+        """One direction keeps sending a datagram per frame while every datagram of the reverse path is lost for
+        k frames, k around 32: the first ack that gets through names the oldest datagrams only in the last bits
+        of the 32-bit bitmap (or not at all when k > 33)."""
+        case = gen_traffic(rng, i, tier, nclients=1, n_msgs=2, long_latency=False, fault=False, entry=rng.choice(["bare", "twisted", "udpserver"]))
+        cfg = case["cfg"]
+        cfg["clients"][0]["dt"] = 1 / 59        # just below the 60/s send cap: one datagram per frame / tick
+        cfg["server"]["interval"] = 1 / 59
+        cfg["latency"], cfg["jitter"], cfg["reactor_lag"] = 0.002, 0.0, 0.0
+        sender = rng.choice(["send", "ssend"])
+        k = rng.choice([29, 30, 31, 32, 33, 34, 36])
+        t0 = 1.5
+        plan = [op for op in case["plan"] if op["op"] == "connect"]
+        for j in range(k + 6):
+            plan.append({"op": sender, "c": 0, "t": round(t0 + j / 59.0, 5), "len": 12 + j % 5, "kind": 0, "retry": 0,
+                         "cb": True, "api": "send"})
+        back = {"send": "src", "ssend": "dst"}[sender]       # the path that carries the acks
+        cfg["phases"] = [{"t0": t0 - 0.004, "t1": t0 + k / 59.0, back: "S", "cut": True}]
+        cfg["t_heal"] = t0 + k / 59.0
+        cfg["duration"] = t0 + k / 59.0 + 4.0
+        case["plan"] = plan
         return case
 
     def monitors(self, case):
